@@ -61,6 +61,8 @@ def as_seq(ex, v):
         return view_seq(ex, v)
     if isinstance(v, str):
         return list(v)
+    if hasattr(v, 'iter_seq'):
+        return v.iter_seq(ex)
     raise OutOfSubset(f'cannot iterate {v!r}')
 
 
@@ -774,3 +776,39 @@ def _frame_key(fr):
         f = f.closure
     return f.fi.key if f is not None else '?'
 
+
+
+def seq_fold(ex, fn, init, xs):
+    """prims.seq_fold: an uninterpreted fold symbol keyed by the symbolic step function, with the defining
+    equations instantiated at the empty sequence and at every visible snoc."""
+    run = ex.run
+    s = as_seq(ex, xs)
+    if isinstance(s, list):
+        acc = init
+        for it in s:
+            acc = ex.call(fn, [acc, it], {})
+        return acc
+    acc_kind = P.kind_of(ex, init)
+    a = run.fresh(acc_kind, 'fa')
+    x = run.fresh(s.kind.elem, 'fx')
+    res = merge_eval(ex, lambda: ex.call(fn, [a, x], {}))
+    val, rc = merged_value(ex, res, acc_kind)
+    if rc is not None:
+        raise OutOfSubset('fold step may raise')
+    key = comb_key(ex, [a, x], val)
+    it = P.lift(ex, init, acc_kind)
+    import hashlib
+    key += '_' + hashlib.sha256(it.sexpr().encode()).hexdigest()[:8]
+    f = P.ufn(f'fold_{s.kind.name}_{acc_kind.name}_{key}', [s.kind.sort()], acc_kind.sort())
+    r = f(s.t)
+
+    def inst(st):
+        run.assume(z3.Implies(z3.Length(st) == 0, f(st) == it))
+        for (pre, e) in snoc_decompositions(st, run):
+            stepped = z3.substitute(val.t, (a.t, f(pre)), (x.t, e))
+            run.assume(f(st) == stepped)
+            run.assume(z3.Implies(z3.Length(pre) == 0, f(pre) == it))
+    inst(s.t)
+    if z3.is_app(s.t) and s.t.decl().kind() == z3.Z3_OP_SEQ_EMPTY:
+        return Sym(acc_kind, it)
+    return Sym(acc_kind, r)
